@@ -68,6 +68,25 @@ def main(tier: str) -> int:
                             outs[delimited] = impl.parse("generic", data, "flat")
                         except Exception as ex:  # noqa: BLE001
                             run.violation(dict(key, clause="parse-raised"), f"{type(ex).__name__}: {ex} (first bytes {data[:3].hex()})", rp)
+                    if nst == 1 and lt == 1 and name in ("", "abcdef"):
+                        import tempfile  # noqa: PLC0415
+                        from .. import framing  # noqa: PLC0415
+
+                        for delimited, want_ in outs.items():
+                            cfg_ = impl.default_cfg(integ="generic", entry="stream_frames", sclass="triple", ltype=lt, delimited=delimited, preset=preset,
+                                                    name=name, frame_size=250, gen=False, star=False)
+                            data = impl.serialize(cfg_, [st[:2] + (("lit", "v0", "", ""),)])
+                            with tempfile.TemporaryDirectory(dir=env.workdir()) as d_:
+                                for kind, opener in framing.seekable_sources(data, d_):
+                                    streams += 1
+                                    try:
+                                        with opener() as src:
+                                            got_ = impl.parse("generic", src, "flat")
+                                        if got_ != want_:
+                                            run.violation({"clause": "source-changes-result", "source": kind, "delimited": delimited}, f"{kind}: parsed differently", {"cfg": cfg_})
+                                    except Exception as ex:  # noqa: BLE001
+                                        run.violation({"clause": "parse-raised", "source": kind, "delimited": delimited},
+                                                      f"{kind}: {type(ex).__name__}: {str(ex)[:80]} (stream written {'delimited' if delimited else 'non-delimited'})", {"cfg": cfg_})
                     if len(outs) == 2 and outs[True] != outs[False]:
                         run.violation({"clause": "modes-parse-differently"}, "same content written in both modes parses to different results", {"preset": preset, "name": name})
     tens = sorted(p for p in pairs if p[1] == 10 or p[2] - 2 == 10)
